@@ -97,9 +97,9 @@ macro_rules! pdu_getbulk {
 }
 //@ C03 quick timeout=900 | GetBulk via OpGetBulk::from_python(oid, 20): tag a5, non-repeaters 0, max-repetitions 20, the OID bound to NULL
 pdu_getbulk!(pdu_getbulk_20, 20i64);
-//@ C03 thorough timeout=1800 | GetBulk with max-repetitions 2^31-1 (largest allowed, 4 content octets)
+//@ C03 thorough timeout=1800 optional | GetBulk with max-repetitions 2^31-1 (largest allowed, 4 content octets)
 pdu_getbulk!(pdu_getbulk_max, 0x7fff_ffffi64);
-//@ C03 thorough timeout=1800 | GetBulk with max-repetitions 128 (needs a leading zero octet)
+//@ C03 thorough timeout=1800 optional | GetBulk with max-repetitions 128 (needs a leading zero octet)
 pdu_getbulk!(pdu_getbulk_128, 128i64);
 
 //@ C03 quick timeout=900 | GetNext via OpGetNext::from_python: tag a1, one OID (3 symbolic octets) bound to NULL, error fields zero
